@@ -541,6 +541,8 @@ def gen_feature(rng, sc, n_scen):
                     if exec_raised >= 1 and attempt < 5:
                         continue
                     exec_raised += 1
+                    if exec_raised > 2:
+                        raise Looping()
                 break
             except LookupError:
                 continue
@@ -755,6 +757,12 @@ def chart_task(args):
         cseed = seed * 1000 + attempt
         try:
             sc = make_chart(cseed)
+            from sismic.interpreter import Interpreter
+            try:
+                if len(Interpreter(sc).execute(max_steps=LIMIT)) >= LIMIT:
+                    continue
+            except Exception:   # noqa  a chart that cannot even be initialised exercises nothing
+                continue
             scens = gen_feature(random.Random(cseed + 7), sc, n_scen)
             break
         except Looping:
